@@ -10,7 +10,7 @@ use crate::core::coordinate_transforms::{
 use crate::core::hilbert::{ij_to_s, s_to_anchor};
 use crate::core::origin::{find_nearest_origin, quintant_to_segment, segment_to_quintant};
 use crate::core::serialization::{
-    deserialize, serialize, FIRST_HILBERT_RESOLUTION, MAX_RESOLUTION, WORLD_CELL,
+    deserialize, get_resolution, serialize, FIRST_HILBERT_RESOLUTION, MAX_RESOLUTION, WORLD_CELL,
 };
 use crate::core::tiling::{
     get_face_vertices, get_pentagon_vertices, get_quintant_polar, get_quintant_vertices,
@@ -155,7 +155,8 @@ pub fn get_pentagon(cell: &A5Cell) -> Result<PentagonShape, String> {
 /// Convert A5 cell ID to lon/lat coordinates of cell center
 pub fn cell_to_lonlat(cell: u64) -> Result<LonLat, String> {
     // WORLD_CELL represents the entire world, return (0, 0) as a reasonable default
-    if cell == WORLD_CELL {
+    // (any index without a resolution marker decodes to the world cell)
+    if get_resolution(cell) == -1 {
         return Ok(LonLat::new(0.0, 0.0));
     }
 
@@ -189,7 +190,8 @@ pub fn cell_to_boundary(
     options: Option<CellToBoundaryOptions>,
 ) -> Result<Vec<LonLat>, String> {
     // WORLD_CELL represents the entire world and is unbounded
-    if cell_id == WORLD_CELL {
+    // (any index without a resolution marker decodes to the world cell)
+    if get_resolution(cell_id) == -1 {
         return Ok(Vec::new());
     }
 
